@@ -876,11 +876,11 @@ func ComparisonExpr(query *Query, current Map, expr *sqlparser.ComparisonExpr, o
 		}
 	case sqlparser.LikeOp:
 		{
-			return RegexComparison(fmt.Sprintf("%v", leftValue), fmt.Sprintf("%v", rightValue))
+			return RegexComparison(TextOf(leftValue), TextOf(rightValue))
 		}
 	case sqlparser.NotLikeOp:
 		{
-			rs, err := RegexComparison(fmt.Sprintf("%v", leftValue), fmt.Sprintf("%v", rightValue))
+			rs, err := RegexComparison(TextOf(leftValue), TextOf(rightValue))
 			if err != nil {
 				return false, err
 			}
@@ -2099,7 +2099,7 @@ func RegexComparison(left any, pattern string) (bool, error) {
 	regExpr = strings.ReplaceAll(regExpr, "%", ".*")
 	// `%` and `_` match every character, a line feed included
 	regExpr = "(?s)^" + regExpr + "$"
-	return regexp.Match(regExpr, []byte(strings.ToLower(fmt.Sprintf("%v", left))))
+	return regexp.Match(regExpr, []byte(strings.ToLower(TextOf(left))))
 }
 
 func RegisterFunction(name string, function Function) {
